@@ -12,14 +12,14 @@ LEVEL_TEXT = ('SERIALISATION proved: Transaction.raw() equals the wire format (B
               'single byte 00 - the pinned finding F-varstr-00 - and the cached size is set); CompactSize / var_str primitives and the stream readers are proved for all values (C18). '
               'PARSING (Transaction.parse -> raw round trip, txid) is a bounded stand-in against an independent writer/reader; it exposed four '
               'classes of round-trip losses that are recorded as open findings (each recognised by a structural predicate).')
-LEVEL_NOTE = ('Not covered: blocks (Block.parse_*, serialize, target), txid assignment as a proof, segwit counts beyond 2 as proofs. The F-varstr-00 finding '
+LEVEL_NOTE = ('Blocks (header fields, hash, compact target, both transaction readers, serialize) are a BOUNDED native stand-in against the independent writer (bounded/c06_blocks.py), not proofs. Not covered: txid assignment as a proof, segwit counts beyond 2 as proofs. The F-varstr-00 finding '
               'propagates into raw() and is pinned exactly (serialisation with the observed var_str).')
-NOT_COVERED = ['Block.parse_bytesio / parse_transaction_dict / serialize / target', 'Transaction.parse_bytesio, Input.parse, Output.parse as proofs',
+NOT_COVERED = ['Block.parse_bytesio / parse_transaction_dict / serialize / target as proofs (bounded harness only)', 'Transaction.parse_bytesio, Input.parse, Output.parse as proofs',
                'segwit transactions with more than 2 inputs / outputs / witness items as proofs (legacy: any count)']
 TRUSTED = ['spec/wire.py (independent serialiser and parser)', 'sha256 via hashlib in the bounded harness']
 FUZZ_QUICK = 100
 
 
 def extra_checks(tier, seed, opens):
-    from bounded import c06_roundtrip
-    return [c06_roundtrip.run(tier, seed, opens)]
+    from bounded import c06_roundtrip, c06_blocks
+    return [c06_roundtrip.run(tier, seed, opens), c06_blocks.run(tier, seed, opens)]
